@@ -1,7 +1,7 @@
 (* C10: lemmas about the source as it is now (gen_cfg). *)
 From Coq Require Import List NArith Bool Lia.
 From LBZ Require Import Gen.Consts SchedX.XState Gen.SchedXTab SchedX.XSet SchedX.XModel SchedX.XLemmas
-  SchedX.XInvDefs SchedX.XInv4 SchedX.XF4.
+  SchedX.XInvDefs SchedX.XInv4 SchedX.XF4 SchedX.XOracle SchedX.XSeq.
 Import ListNotations.
 Local Open Scope N_scope.
 
@@ -28,3 +28,48 @@ Lemma C09_safe_gen :
   forall n small ultra st, reach gen_cfg (init_dec n small ultra) st ->
     x_bad_attach st = false /\ retr_inv st = true.
 Proof. intros n small ultra st R. unfold init_dec in R. destruct (C10_no_stale_attach_gen _ _ _ _ _ R) as (A & B & _). auto. Qed.
+
+
+(* ---- C10 proper ------------------------------------------------------------------------ *)
+(* a run has terminated normally: nothing failed, the parser reached the end of the
+   input, every confirmed block has been written *)
+Definition completed (st : xstate) : Prop :=
+  x_failed st = None /\ x_parsing_done st = true /\ x_order_q st = [].
+
+Lemma C10_speculation_free_gen :
+  forall (O : oracle) n tin tout ultra st L R,
+    oreach O gen_cfg (init_state n tin tout ultra) st -> SeqDec O 0 0 L R ->
+    (exists l', L = x_written st ++ l') /\
+    (x_failed st <> None -> R = false) /\
+    (completed st -> x_written st = L /\ R = true).
+Proof.
+  intros O n tin tout ultra st L R RE SD.
+  destruct (speculation_free O gen_cfg n tin tout ultra st L R gen_cfg_safe RE SD) as (A & B & C).
+  split; auto. split; auto. intros (F & D & Q). auto.
+Qed.
+
+(* C09, process level: two runs on the same stream (same oracles) with different worker
+   counts, slot numbers, input fragmentations (EvInput sizes) and interleavings *)
+Lemma C09_process_gen :
+  forall (O : oracle) n1 tin1 tout1 u1 n2 tin2 tout2 u2 st1 st2 L R,
+    SeqDec O 0 0 L R ->
+    oreach O gen_cfg (init_state n1 tin1 tout1 u1) st1 ->
+    oreach O gen_cfg (init_state n2 tin2 tout2 u2) st2 ->
+    (completed st1 -> completed st2 -> x_written st1 = x_written st2) /\
+    (completed st1 -> x_failed st2 = None) /\
+    (exists l, x_written st1 = x_written st2 ++ l \/ x_written st2 = x_written st1 ++ l).
+Proof.
+  intros O n1 tin1 tout1 u1 n2 tin2 tout2 u2 st1 st2 L R SD R1 R2.
+  destruct (C10_speculation_free_gen O _ _ _ _ _ L R R1 SD) as ((l1 & E1) & F1 & C1).
+  destruct (C10_speculation_free_gen O _ _ _ _ _ L R R2 SD) as ((l2 & E2) & F2 & C2).
+  split; [|split].
+  - intros K1 K2. destruct (C1 K1) as [-> _]. destruct (C2 K2) as [-> _]. reflexivity.
+  - intros K1. destruct (C1 K1) as [_ RT]. destruct (x_failed st2) eqn:F; auto.
+    assert (R = false) by (apply F2; congruence). congruence.
+  - rewrite E1 in E2. clear -E2. revert E2. generalize (x_written st1) as a, (x_written st2) as b. intro a.
+    revert l1 l2. induction a as [|x a IH]; intros l1 l2 b E.
+    + exists b. right. reflexivity.
+    + destruct b as [|y b].
+      * exists (x :: a). left. reflexivity.
+      * simpl in E. inversion E; subst. destruct (IH _ _ _ H1) as (l & [K|K]); exists l; [left|right]; simpl; congruence.
+Qed.
